@@ -111,6 +111,8 @@ def build_model(case):
         m.add_reaction("rs", F.ma1, args=["x1", "kw"], stoichiometry={"x1": -1})
     elif p == "locals-and-conditionals":
         m.add_reaction("rs", F.with_local, args=["x1", "k1"], stoichiometry={"x1": -1})
+        m.add_reaction("rs3", F.capped, args=["x1", "k1"], stoichiometry={"x1": -1})
+        m.add_derived("s3", F.capped, args=["k2", "x1"])
         m.add_derived("s1", F.cond_rate, args=["x1", "k2"])
         m.add_reaction("rs2", F.power, args=["s1", "k1"], stoichiometry={"x1": -1})
     elif p == "same-name-coinciding-specialisation":
